@@ -446,11 +446,47 @@ def rule_verbatim(ck, facts):
     ck.floor(R, "text_replacements", n, 1)
 
 
+
+def rule_truthiness(ck, facts):
+    """the generated program decides a branch the way the VM does: through the template's `truthy`"""
+    import re
+
+    R = "C18.prims"
+    lines = generated_lines(facts)
+    n = 0
+    for f, t, txt in lines:
+        if not re.search(r"\bif\b", txt) or "{}" not in txt:
+            continue
+        inline = re.search(r"word_to_f64\(\{\}\)\s*(<=|>=|<|>|!=|==)\s*0(\.0)?\b", txt)
+        uses = "truthy({})" in txt
+        if not inline and not uses:
+            continue
+        n += 1
+        owner = f.root.split("::")[-1]
+        key = "truthiness|%s|%s" % (owner, "inline" if inline else "truthy")
+        if inline:
+            ck.bad(R, key, "%s writes a branch test that compares the condition word with 0.0 itself (`%s`) instead of calling the runtime's `truthy`: the two agree on ordered values only — on a NaN condition `x <= 0.0` is false and the generated program takes the other branch than the VM (`!(x > 0.0)`)" % (f.short, inline.group(0)), f.where(t))
+        else:
+            ck.ok(R, key)
+    ck.floor(R, "generated_truthiness_tests", n, 2)
+    # the template's own definition: strictly greater than zero, like the VM's JmpIfNeg / And / Or / Not
+    if "mimium_rust_template" in facts.files:
+        tf = [g for g in facts.crate("mimium_rust_template").fns if g.short.split("::")[-1] == "truthy" or (g.local_ty(0) == "bool" and g.d["argc"] == 1 and g.kind == "fn" and any(st[KIND] == "a" and st[5][0] == "bin" and st[5][1] in ("gt", "ge", "lt", "le", "ne", "eq") and any(o[0] == "c" and o[1] == "f" for o in st[5][2:4]) for _, st in g.all_stmts()) and len(g.bb) <= 4)]
+        tf = [g for g in tf if g.short.split("::")[-1] == "truthy"] or tf[:1]
+        for g in tf[:1]:
+            ops = [st[5][1] for _, st in g.all_stmts() if st[KIND] == "a" and st[5][0] == "bin" and any(o[0] == "c" and o[1] == "f" for o in st[5][2:4])]
+            if ops == ["gt"]:
+                ck.ok(R, "truthiness|template", {"test": "word_to_f64(value) > 0.0"})
+            else:
+                ck.bad(R, "truthiness|template", "the runtime template's truthiness test is %s against a float constant; the VM branches on `value > 0.0` (NaN and 0.0 are false)" % (ops or "not a single comparison"), g.where())
+
+
 def run(ck, facts, tier):
     rule_state_borrow(ck, facts)
     rule_word_cursor(ck, facts)
     rule_word_advance(ck, facts)
     rule_verbatim(ck, facts)
+    rule_truthiness(ck, facts)
     if "mimium_rust_template" in facts.files:
         from ..rules import saverestore
 
